@@ -174,7 +174,8 @@ def parse_verus_errors(stderr):
 def run_verus_file(path, rlimit, seed, timeout, multi=4):
     cmd = ['verus', path, '--rlimit', str(rlimit), '--output-json', '--time', '--multiple-errors', str(multi),
            '--smt-option', 'smt.random_seed=%d' % seed]
-    rc, so, se, dt = sh(cmd, cwd=os.path.dirname(path), timeout=timeout)
+    # the fully unrolled BLAKE2 compression functions (768 statements) overflow rustc's default stack inside Verus
+    rc, so, se, dt = sh(cmd, cwd=os.path.dirname(path), timeout=timeout, env=dict(ENV, RUST_MIN_STACK='4294967296'))
     js = None
     try:
         js = json.loads(so)
